@@ -7,7 +7,8 @@
 (* Each trace action is  IsEvent(name) /\ <HpoCore action with the logged  *)
 (* arguments> /\ <logged observation = what the specification derives>.    *)
 (* Runs are concatenated with Reset events.  Focus selects which fields of *)
-(* the observations are compared: "C01" structure, "C02" annotations.      *)
+(* the observations are compared: "C01" structure, "C02" annotations,      *)
+(* "C03" information content (consistency with the ontology's own n, N).   *)
 (***************************************************************************)
 EXTENDS HpoCore, Json, IOUtils
 
@@ -54,6 +55,7 @@ BuiltMatches(p) ==
   /\ (Focus = "C01") =>
        /\ {StructOf(t) : t \in Range(p.terms)} = {StructOf(t) : t \in Range(want.terms)}
        /\ \A t \in Range(p.terms) : LoggedStructOk(t)
+  /\ (Focus = "C03") => p.ic_bad = <<>>        \* IC = -ln(n/N) on the ontology's own n and N (checked by the recorder)
   /\ (Focus = "C02") =>
        /\ {AnnOf(t) : t \in Range(p.terms)} = {AnnOf(t) : t \in Range(want.terms)}
        /\ \A t \in Range(p.terms) : LoggedAnnOk(t)
@@ -91,6 +93,7 @@ SubMatches(ev) ==
           /\ Range(term(t).children) = ChildrenOf(par, t)                \* inverse relation
           /\ Range(term(t).allp) = Anc(par, t)                           \* closure inside the sub-ontology
           /\ LoggedStructOk(term(t))
+  /\ (Focus = "C03") => p.ic_bad = <<>>
   /\ (Focus = "C02") =>
        /\ \A k \in Kinds : \A r \in Range(recsOf(k)) :
              /\ r.id \in DOMAIN rec[k]                                    \* only records of the source
